@@ -1,6 +1,6 @@
 # C10: compressed size is bounded and repetition is actually exploited.
 from lzcommon import (LZCheckMixin, PropertyCheck, Case, compress_inputs, parse_compress_out, parse_hex, hexb, periodic,
-                      rand_bytes, shrink_bytes, ceil_div, spread_heavy, structured_input, long_compressible_inputs)
+                      rand_bytes, shrink_bytes, ceil_div, spread_heavy, structured_input, long_compressible_inputs, ptok, shrink_ptok)
 
 FORMATS = {"lz10c": (4, 2, 18), "lz13c": (8, 4, 4096)}     # header, bytes per reference, maximum match length
 FORMATS["lz10f"] = FORMATS["lz10c"]                        # the same through the enum CompressionFormat
@@ -21,6 +21,20 @@ def smallest_period(x):
             k += 1
         pi[i] = k
     return n - pi[n - 1]
+
+
+def input_and_period(tok):
+    """-> (number of bytes, smallest period) of a case's input token.  For a compact P<len>:<pattern> token of at least two
+    patterns the period is computed on two patterns (it divides the pattern length, Fine-Wilf) and the 16 MiB string is
+    never built."""
+    if tok[0] == "P" and "+" not in tok:
+        n, pat = tok[1:].split(":", 1)
+        n = int(n)
+        pat = bytes.fromhex(pat) or b"\0"
+        if n >= 2 * len(pat):
+            return n, smallest_period(pat * 2)
+    data = parse_hex(tok)
+    return len(data), smallest_period(data)
 
 
 def expansion_bound(kind, n):
@@ -83,6 +97,12 @@ class C10(LZCheckMixin, PropertyCheck):
             for n in (p + 3 * 4096 + rng.randint(0, 9), p + 6 * 4096, p + 10 * 4096 + rng.randint(0, 4095)):
                 for kind in ("lz10c", "lz13c"):
                     add(kind, periodic(pat, n), "periodic-long-period-many-periods")
+        # positions beyond 2^24 (seeded C10-10: a pre-filter packed positions into 24 bits, so LZ13 found no match there):
+        # LZ13 only (LZ10 rejects 16 MiB and more), compact P token, implementation + the period bound, no model run.
+        # Measured: 0.07 s per case in the debug harness, 0.05 s in release (the wrapper-length pass and the main loop take
+        # one maximal match per 4096 bytes on periodic data)
+        for p, n in ((1000, (1 << 24) + 100000), (3, (1 << 24) + 5000)):
+            cases.append(Case("lz13c 0 %s" % ptok(n, rand_bytes(rng, p)), "periodic-beyond-16MiB"))
         nst = 150 if tier == "quick" else 1500
         for _ in range(nst):
             name, data = structured_input(rng, rng.choice([40, 300, 1500, 6000, 20000]))
@@ -110,26 +130,28 @@ class C10(LZCheckMixin, PropertyCheck):
         return spread_heavy(cases, weight=lambda c: 0 if c.line.split(" ")[1] == "0" else len(c.line))
 
     def nontrivial(self, case, impl_out):
-        data = parse_hex(case.line.split(" ")[2])
-        p = smallest_period(data)
-        return p <= 4096 and len(data) >= 2 * p
+        n, p = input_and_period(case.line.split(" ")[2])
+        return p <= 4096 and n >= 2 * p
 
     def oracle(self, case, impl_out, profile):
         parts = case.line.split(" ")
-        kind, data = parts[0], parse_hex(parts[2])
-        n = len(data)
+        kind = parts[0]
+        n, p = input_and_period(parts[2])
         cat, c, rt = parse_compress_out(impl_out)
         if cat != "ok":
             return "compression did not succeed: %s" % impl_out[:60]
         if len(c) > expansion_bound(kind, n):
             return "%s: %d bytes for an input of %d exceed header + n + ceil(n/8) = %d" % (kind, len(c), n, expansion_bound(kind, n))
-        p = smallest_period(data)
         if p <= 4096 and len(c) > periodic_bound(kind, n, p):
             return "%s: %d bytes for an input of %d with period %d exceed the bound %d" % (kind, len(c), n, p, periodic_bound(kind, n, p))
         return None
 
     def shrink_candidates(self, case):
         parts = case.line.split(" ")
+        if parts[2][0] == "P":
+            for t in shrink_ptok(parts[2]):
+                yield Case("%s 0 %s" % (parts[0], t), case.stream)
+            return
         data = parse_hex(parts[2])
         p = smallest_period(data)
         # keep the period, shorten the tail; then general byte removal
